@@ -96,8 +96,12 @@ void recursive_sph_harm(sphbuf buf, double *restrict r, double *restrict res) {
     double fac;
 
     ylm[0 * lp1 + 0] = SPHF0;
-    ylm[1 * lp1 + 0] = SQRT3 * SPHF0 * z;
     res[0] = SPHF0;
+    if (buf.lmax == 0) {
+        // only the l=0 harmonic exists; the l=1 entries below are out of range
+        return;
+    }
+    ylm[1 * lp1 + 0] = SQRT3 * SPHF0 * z;
     res[2] = creal(ylm[1 * lp1 + 0]);
     // res[3] = creal(ylm[1*lp1+0]);
 
@@ -155,6 +159,9 @@ void recursive_sph_harm_deriv(sphbuf buf, double *r, double *res,
     dresx[0] = 0.0;
     dresy[0] = 0.0;
     dresz[0] = 0.0;
+    if (buf.lmax == 0) {
+        return;
+    }
 
     ind = 1 * lp1;
     ylm[ind] = SQRT3 * SPHF0 * z;
